@@ -11,15 +11,17 @@ structure Helper where
   exeInside : Bytes
   fds : List Bytes
   kill : Bool
+  gone : Bool := false     -- the working directory was deleted (and made anew) under the process
 
 def getHelper (j : Json) : Helper :=
   { cwd := getB j "cwd", chroot := getB j "chroot", exeInside := getB j "exe", fds := getBs j "fds",
-    kill := getBool j "kill" }
+    kill := getBool j "kill", gone := getBool j "gone" }
 
 def procOf (idx : Nat) (h : Helper) : ProcRec :=
   { pid := idx,
     exe := .ok (if h.exeInside.isEmpty then b!"/harness/lcharness" else h.exeInside),
-    cwd := .ok (if !h.chroot.isEmpty then h.chroot else if h.cwd.isEmpty then b!"/" else h.cwd),
+    cwd := .ok (if !h.chroot.isEmpty then h.chroot else if h.cwd.isEmpty then b!"/"
+                else if h.gone then h.cwd ++ b!" (deleted)" else h.cwd),   -- what /proc shows
     root := .ok (if h.chroot.isEmpty then b!"/" else h.chroot),
     fd := if h.kill then .readFails ESRCH else .entries (h.fds.map Except.ok) }
 
@@ -41,7 +43,8 @@ def specUse (layers : Bytes) (pid usedAs : Nat) (target : Bytes) : Option Use :=
 def specUses (layers : Bytes) (hs : List Helper) : List Use :=
   (hs.zipIdx).flatMap fun (h, i) =>
     let cwd := if !h.chroot.isEmpty then h.chroot else h.cwd
-    ([specUse layers i 1 cwd] ++ (if h.chroot.isEmpty then [] else [specUse layers i 0 h.chroot])
+    ((if h.gone && h.chroot.isEmpty then [] else [specUse layers i 1 cwd])
+      ++ (if h.chroot.isEmpty then [] else [specUse layers i 0 h.chroot])
       ++ (if h.exeInside.isEmpty then [] else [specUse layers i 2 h.exeInside])
       ++ (if h.kill then [] else h.fds.map (specUse layers i 3))).filterMap id
 
@@ -57,10 +60,15 @@ def handle (op : String) (j : Json) : Option Json :=
     let impl := getObj j "impl"
     let expected := Json.arr ((canon (specUses layers hs)).map jUse).toArray
     let holds := getStr impl "cls" == "ok" && getObj impl "uses" == expected
+    -- recorded finding: the kernel shows an unlinked directory as "<path> (deleted)"; a process
+    -- left in one is attributed to whatever layer now carries the name (region: a helper whose
+    -- directory is gone, and the implementation reports exactly what that string yields)
+    let goneRegion := hs.any (fun h => h.gone && h.chroot.isEmpty) && getObj impl "uses" == getObj model "uses"
     let tags := (if hs.any (·.kill) then ["vanish"] else []) ++ (if hs.any (!·.chroot.isEmpty) then ["chroot"] else [])
                 ++ (if hs.any (!·.exeInside.isEmpty) then ["exe-inside"] else []) ++ [s!"helpers:{hs.length}"]
-    some (obj [("model", model), ("holds", Json.bool holds), ("expected", expected),
-               ("tags", Json.arr (tags.map Json.str).toArray)])
+    some (obj ([("model", model), ("holds", Json.bool holds), ("expected", expected),
+               ("tags", Json.arr ((tags ++ (if hs.any (·.gone) then ["deleted-cwd"] else [])).map Json.str).toArray)] ++
+              (if !holds && goneRegion then [("finding", Json.str "deleted-directory-attributed")] else [])))
   | _ => none
 
 end Lc.Driver.C19
